@@ -22,6 +22,7 @@ let prims : prims = {
   seed_ok = (fun x -> match tag_split (oracle1 "seed_ok" x) with (1, _) -> true | _ -> false);
   xparse = (fun x -> match tag_split (oracle1 "xparse" x) with
                      | (0, c) -> XOk c | (1, _) -> XValue | _ -> XBase58);
+  chan_key = (fun x k -> oracle "chan_key" [x; nbytes k]);
   jstr = (fun x -> oracle1 "jstr" x);
   scrypt = (fun pw salt nn r p -> oracle "scrypt" [pw; salt; nbytes nn; nbytes r; nbytes p]);
   zc = (fun x -> oracle1 "zc" x);
@@ -80,6 +81,7 @@ let mop_of_json (j : json) : mop =
   | "set_pref" -> MSetPref (jbytes (jfield j "key"), jv_of_json (jfield j "value"), jz (jfield j "ts"))
   | "acc_encrypt" -> MAccEncrypt (jnat (jfield j "i"), jbytes (jfield j "pw"), rnd_of j)
   | "acc_decrypt" -> MAccDecrypt (jnat (jfield j "i"), jbytes (jfield j "pw"))
+  | "touch_channel" -> MTouchChannel (jnat (jfield j "i"))
   | "set_cipher" -> MSetCipher (jnat (jfield j "i"), jbytes (jfield j "seed"), jbytes (jfield j "pks"))
   | k -> raise (Model_error ("unknown op " ^ k))
 
@@ -104,6 +106,8 @@ let snapshot () : json =
     ("locked", of_bool (is_locked w)); ("encrypted", of_bool (is_encrypted w)); ("pref_on", of_bool (pref_on w));
     ("pw", of_opt_bytes w.w_pw); ("name", of_bytes w.w_name);
     ("accounts", of_list json_of_account w.w_accounts);
+    ("chan", of_list (fun a -> JArr [of_opt_bytes (channel_view prims a (n_of_int 0));
+                                     of_opt_bytes (channel_view prims a (n_of_int 1))]) w.w_accounts);
     ("json", of_bytes (rcompact prims (Stdlib.fst (wallet_to_dict prims None [] w))));
     ("file", file_json (st.m_fs !cur_path)) ]
 
